@@ -333,7 +333,9 @@ func frameTags(con *FnContract) []string {
 // isStandalone decides whether fn is verified on its own (vs. only inlined at call sites).
 func (w *World) isStandalone(fn *ssa.Function) bool {
 	if con := w.contractFor(fn); con != nil {
-		return !con.Inline
+		// an `inline` function is executed in its callers; if it states postconditions of its own they are
+		// obligations of the function itself as well
+		return !con.Inline || len(con.Ensures) > 0
 	}
 	if fn.Parent() != nil {
 		return true // closures run on their own
